@@ -57,6 +57,15 @@ class MachineryError(Exception):
     """Something in the checking machinery (not in the code under test) went wrong."""
 
 
+class Violation(Exception):
+    """Raised by an adapter when building the component already contradicts the property (a step
+    the property names itself, e.g. "by connecting an initiator interface")."""
+    def __init__(self, key, what):
+        super().__init__(what)
+        self.key = key
+        self.what = what
+
+
 class Run:
     """Accumulates what one check run covered, reports violations and writes the evidence."""
 
@@ -76,6 +85,7 @@ class Run:
         self.known_hits = []
         self._known = load_known_findings().get(prop, [])
         self._vio_n = 0
+        self._reported = set()
 
     # ---- counters -------------------------------------------------------------------
     def add_tlc(self, res, label):
@@ -120,6 +130,9 @@ class Run:
                 self.known_hits.append(key)
                 print(f"KNOWN-FINDING: property={self.prop} {k['what']}", flush=True)
             return False
+        if key in self._reported:
+            return True
+        self._reported.add(key)
         self.violations += 1
         self._vio_n += 1
         os.makedirs(REPLAY_DIR, exist_ok=True)
